@@ -643,7 +643,7 @@ def run(chk):
         handle_broken(chk)
 
     max_ops = 5 if quick else 10
-    n = 1500 if quick else 40000
+    n = 1000 if quick else 40000
     # fixed regression cases first: the defects repaired by `fix:` commits (their witnesses)
     fixed = corpus_cases()
     cases = fixed + [gen_case(rng, max_ops) for _ in range(n)]
@@ -671,11 +671,55 @@ def run(chk):
         key = ("corpus:" + str(i) if i < len(fixed) else "pipe:" + sig) + ":" + cons + ":" + kind
         chk.violation(("tie:" + key) if kind in ("tie", "harness") else key, f"{src}  — {text}", replay,
                       no_input=kind in ("tie", "harness"))
+    # ---- operations outside the random pipelines: fixed probes with the value the list semantics gives
+    probes = fixed_probes()
+    dumps = eval_exprs([e for e, _, _ in probes], limits={"search": SEARCH, "ud_calls": UD_CALLS}, per_req_timeout=20.0)
+    for (e, want, key), d in zip(probes, dumps):
+        chk.evaluations += 1
+        chk.count("probe")
+        got = canon_impl(d)
+        if got != want:
+            chk.violation(key, f"{e} evaluates to {d}; over plain lists it is {want}",
+                          {"src": f"let r = {e};", "get": ["r"], "limits": {"search": SEARCH, "ud_calls": UD_CALLS}, "expected": want, "got": d})
     for c in cases[len(fixed):len(fixed) + 4]:
         chk.sample({"program": f"let g = {c[0].src}; let a = g.{c[3]}; let b = g.{c[3]};", "model": " ".join(c[0].toks)})
     return chk.finish(rule="pipelines of 1-%d generator operations over arrays, count(), count(a,b), successors, successors_until, "
                            "each value consumed twice (to_array/len/last/get), 30%% of them with error-producing callbacks; "
                            "non-trivial = distinct pipelines with at least 3 operations" % max_ops)
+
+
+def fixed_probes():
+    P = []
+    def add(e, v, key):
+        P.append((e, dump(v) if not isinstance(v, str) else v, key))
+    arr = "[3, 1, 4, 1, 5, 9, 2, 6].to_generator()"
+    xs = [3, 1, 4, 1, 5, 9, 2, 6]
+    add(f"{arr}.chunks(3).to_array()", [xs[0:3], xs[3:6], xs[6:8]], "probe:chunks:wrong")
+    add("count().to_generator().chunks(2).take(2).to_array()", [[0, 1], [2, 3]], "probe:chunks:lazy")
+    add("[1, 2].to_generator().product([3, 4].to_generator()).to_array()", [(1, 3), (1, 4), (2, 3), (2, 4)], "probe:product:wrong")
+    add("[1, 2].to_generator().product(count().to_generator()).take(3).to_array()", [(1, 0), (1, 1), (1, 2)], "probe:product:lazy")
+    add(f"{arr}.nth(1, (x:int)->{{x > 3}})", "(some (int S 5))", "probe:nth:wrong")
+    add(f"{arr}.nth(7, (x:int)->{{x > 3}})", "(none)", "probe:nth:none")
+    add("count().to_generator().nth(2, (x:int)->{x % 5 == 4})", "(some (int S 14))", "probe:nth:lazy")
+    add(f"{arr}.reduce((a:int, b:int)->{{a * 2 + b}})", __import__("functools").reduce(lambda a, b: a * 2 + b, xs), "probe:reduce:wrong")
+    add(f"{arr}.reduce(100, (a:int, b:int)->{{a - b}})", 100 - sum(xs), "probe:reduce2:wrong")
+    add(f"{arr}.map(to_str{{int}}).join('-')", '(str "3-1-4-1-5-9-2-6")', "probe:join:wrong")
+    add(f"{arr}.sum()", sum(xs), "probe:sum:wrong")
+    add(f"{arr}.any((x:int)->{{x > 8}})", True, "probe:any:wrong")
+    add("count().to_generator().any((x:int)->{x > 8})", True, "probe:any:lazy")
+    add(f"{arr}.all((x:int)->{{x > 1}})", False, "probe:all:wrong")
+    add("count().to_generator().all((x:int)->{x < 8})", False, "probe:all:lazy")
+    add(f"{arr}.first((x:int)->{{x > 4}})", "(some (int S 5))", "probe:first:wrong")
+    add(f"{arr}.count((x:int)->{{x == 1}})", 2, "probe:count:wrong")
+    add(f"{arr}.max()", 9, "probe:max:wrong")
+    add(f"{arr}.min()", 1, "probe:min:wrong")
+    add("[[1].to_generator(), [2, 3].to_generator(), [4].to_generator().take(0)].to_generator().flatten().to_array()", [1, 2, 3], "probe:flatten:wrong")
+    add("[[1].to_generator(), count().to_generator()].to_generator().flatten().take(3).to_array()", [1, 0, 1], "probe:flatten:inner-infinite")
+    # flatten is `reduce([].to_generator(), add)` (include.rs:1319): it consumes its outer generator completely
+    add("count().to_generator().map((x:int)->{[x, x].to_generator()}).flatten().take(3).to_array()", [0, 0, 1], "lazy:flatten:outer-infinite")
+    add(f"{arr}.skip(2).take(3).skip(1).to_array()", xs[2:5][1:], "probe:slice3:wrong")
+    add(f"{arr}.take(6).skip(1).take(2).skip(1).to_array()", xs[:6][1:][:2][1:], "probe:slice4:wrong")
+    return P
 
 
 def corpus_cases():
